@@ -37,7 +37,7 @@ func (p *Prop) Meta() simkit.Meta {
 		},
 		FaultKinds:    []string{"stub_histogram_counters"},
 		NotApplicable: []string{"message loss/duplication/reordering", "partitions", "crash-restart with durable state", "torn/lost disk writes", "disk full", "clock skew/jumps", "allocation or syscall failure"},
-		RunsQuick:     60000, RunsThorough: 2000000,
+		RunsQuick:     400000, RunsThorough: 5000000,
 	}
 }
 
